@@ -77,18 +77,24 @@ def popAll (m : VMap) : Except Err Event :=
     | x :: _ => pure (p.1, x)
     | [] => throw (.internal "KeyError"))
 
+/-- `simplify` after the validation and the minimisation of the event: Line 3 (first half), Line 2, Line 3 (second
+half), Line 2 again, and the final list comprehension -/
+def simplifyCore (me : Event) : Except Err (Option Event) := do
+  let nonrefl := removeRepeated (splitReflexive me).2
+  let refl := removeRepeated (splitReflexive me).1
+  if ← anyInconsistent nonrefl refl then pure none
+  else do
+    let refl' ← reduceReflexive refl
+    if ← anyInconsistent nonrefl refl' then pure none
+    else do
+      let a ← popAll nonrefl
+      let b ← popAll refl'
+      pure (some (a ++ b))
+
 /-- `simplify(event, graph)` -/
 def simplify (g : MG Name) (e : Event) : Except Err (Option Event) := do
   if !e.all (fun p => validEventVar p.1) then throw (.invalidInput "TypeError")
   let me ← minimizeEvent g e
-  let (reflE, nonreflE) := splitReflexive me
-  let nonrefl := removeRepeated nonreflE
-  let refl := removeRepeated reflE
-  if ← anyInconsistent nonrefl refl then return none
-  let refl ← reduceReflexive refl
-  if ← anyInconsistent nonrefl refl then return none
-  let a ← popAll nonrefl
-  let b ← popAll refl
-  pure (some (a ++ b))
+  simplifyCore me
 
 end Y0.Ctf
